@@ -432,6 +432,8 @@ def rule_08_7(rep, fx):
     rule_08_11(rep, fx)
     rule_08_12(rep, fx)
     rule_08_13(rep, fx)
+    rule_08_14(rep, fx)
+    rule_08_15(rep, fx)
 
 
 def rule_08_8(rep, fx):
@@ -719,3 +721,209 @@ def rule_08_13(rep, fx):
     ins_i = [_key_term(oga.of_operand(t['args'][1], bb, 'term')) for bb, t in ad.calls() if callee_res(t).endswith('::insert') and has_field(oga.of_operand(t['args'][0], bb, 'term'), 'instance_samples')]
     rep.check(len(ins_d) == 1 and ins_d == ins_i, 'R08.13', 'add_sample/inserts-both', 'the receive timestamp goes into datasamples and into instance_samples',
               'add_sample does not insert the same timestamp into datasamples and into the instance\'s instance_samples (%s vs %s)' % ([term_str(x)[:40] for x in ins_d], [term_str(x)[:40] for x in ins_i]), ad.where())
+
+
+def rule_08_14(rep, fx):
+    """select_* decides which samples an access returns; the four *_by_keys functions must return one result per selected key."""
+    rep.rule('R08.14', 'every selected sample is reported: in read_by_keys / take_by_keys / read_bare_by_keys / take_bare_by_keys a return that does not lie behind the loops over '
+                       '`keys` is taken only for an empty selection (keys.len() == 0 / is_empty()); every loop over `keys` accumulates (push / push_back) on each iteration before '
+                       'the next key is fetched; and a new instance met by add_sample is entered into instance_map before it is looked up again')
+    n = 0
+    for fn in ('read_by_keys', 'take_by_keys', 'read_bare_by_keys', 'take_bare_by_keys'):
+        b = fx.find(DSC + fn)
+        rep.analysed(b)
+        og = Origins(b, summaries=False)
+        P = Pos(b)
+        edges = list(switch_edges(b, fx, og))
+        loops = []
+        for lp in natural_loops(b):
+            blocks = lp[1]
+            nxt = [(bb, t) for bb, t in b.calls() if bb in blocks and callee_res(t).endswith('::next') and
+                   term_has(og.of_operand(t['args'][0], bb, 'term'), lambda x: x == ('param', 2))]
+            if nxt:
+                loops.append((nxt[0][0], blocks))
+        bad = []
+        if not loops:
+            bad.append('no loop over keys')
+        for nb, blocks in loops:
+            some = [(s_, t_) for s_, t_, cond, lab in edges if lab == 'Some' and s_ in blocks and cond[0] == 'discr' and cond[1][0] == 'call' and cond[1][1].endswith('::next') and len(cond[1]) > 3 and cond[1][3] == nb]
+            acc = [(bb, 'term') for bb, t in b.calls() if bb in blocks and callee_res(t).rsplit('::', 1)[-1] in ('push', 'push_back')]
+            is_result_loop = nb == max(x for x, _ in loops)
+            if not some or (is_result_loop and not acc):
+                bad.append('the loop that builds the result pushes nothing')
+            elif acc and any(P.can_reach((t_, 0), (nb, 'term'), avoid_pos=acc) for s_, t_ in some):
+                bad.append('an iteration over keys can end without push / push_back')
+            # what the result loop pops per key, an earlier loop over keys must have queued per key
+            from rules.builtsent import _alloc_sites
+            for bb, t in b.calls():
+                if bb in blocks and callee_res(t).rsplit('::', 1)[-1] in ('pop_front', 'pop_back', 'pop'):
+                    src_ = _alloc_sites(og.of_operand(t['args'][0], bb, 'term'))
+                    fed = False
+                    for nb2, blocks2 in loops:
+                        if nb2 >= nb:
+                            continue
+                        some2 = [(s_, t_) for s_, t_, cond, lab in edges if lab == 'Some' and s_ in blocks2 and cond[0] == 'discr' and cond[1][0] == 'call' and cond[1][1].endswith('::next') and len(cond[1]) > 3 and cond[1][3] == nb2]
+                        feed = [(fb, 'term') for fb, ft in b.calls() if fb in blocks2 and callee_res(ft).rsplit('::', 1)[-1] in ('push', 'push_back') and
+                                (_alloc_sites(og.of_operand(ft['args'][0], fb, 'term')) & src_)]
+                        if feed and some2 and not any(P.can_reach((t_, 0), (nb2, 'term'), avoid_pos=feed) for s_, t_ in some2):
+                            fed = True
+                    if not fed:
+                        bad.append('the result loop pops from a queue that no earlier loop over keys fills once per key')
+        # returns outside the loops: only for the empty selection
+        empty = [(s_, t_) for s_, t_, cond, lab in edges if
+                 (cond[0] == 'bin' and cond[1] == 'Eq' and lab is True and term_has(cond, lambda x: x[0] in ('len', 'call') and (x[0] == 'len' or x[1].endswith('::len'))) and
+                  term_has(cond, lambda x: x[0] == 'const' and str(x[2]) == '0') and term_has(cond, lambda x: x == ('param', 2))) or
+                 (cond[0] == 'bin' and cond[1] == 'Ne' and lab is False and term_has(cond, lambda x: x == ('param', 2)) and term_has(cond, lambda x: x[0] == 'const' and str(x[2]) == '0')) or
+                 (cond[0] == 'call' and cond[1].endswith('is_empty') and lab is True and term_has(cond, lambda x: x == ('param', 2)))]
+        last = loops[-1][0] if loops else None
+        if last is not None:
+            # the last loop over keys in program order is the one every non-empty access must run through
+            lastnb = max(nb for nb, _ in loops)
+            for r in b.return_blocks():
+                if not P.every_path_passes(None, (r, 'term'), via_pos=[(lastnb, 'term')], via_edges=empty, from_entry=True):
+                    bad.append('a return is reachable for a non-empty selection without going through the loops over keys')
+        n += 1
+        rep.check(not bad, 'R08.14', '%s/every-key-reported' % fn, 'one result per selected key; early return only for an empty selection',
+                  '%s does not report every selected sample (%s): samples that select_* chose are silently missing from the result (and, for take, may already be removed)' %
+                  (fn, '; '.join(sorted(set(bad))[:2])), b.where())
+    rep.floor('R08.14', n, 4, '*_by_keys functions')
+    # new instance entered before it is looked up again
+    a = fx.find(DSC + 'add_sample')
+    og = Origins(a, summaries=False)
+    P = Pos(a)
+    edges = list(switch_edges(a, fx, og))
+    none = [(s_, t_) for s_, t_, cond, lab in edges if lab == 'None' and cond[0] == 'discr' and cond[1][0] == 'call' and cond[1][1].rsplit('::', 1)[-1] in ('get_mut', 'get') and has_field(cond[1], 'instance_map')]
+    ins = [(bb, 'term') for bb, t in a.calls() if callee_res(t).endswith('::insert') and has_field(og.of_operand(t['args'][0], bb, 'term'), 'instance_map')]
+    look = [(bb, 'term') for bb, t in a.calls() if callee_res(t).rsplit('::', 1)[-1] in ('get_mut', 'get') and has_field(og.of_operand(t['args'][0], bb, 'term'), 'instance_map')]
+    ok = bool(none) and bool(ins)
+    for s_, t_ in none:
+        for l in look + [(r, 'term') for r in a.return_blocks()]:
+            if P.can_reach((t_, 0), l, avoid_pos=ins):
+                ok = False
+    rep.check(ok, 'R08.14', 'add_sample/new-instance-entered', 'instance unknown => instance_map.insert(key, ..) before the next lookup / the return',
+              'add_sample does not enter a new instance into instance_map on every path before looking it up again: the first sample of every instance panics the reader (or is lost)', a.where())
+
+
+def rule_08_15(rep, fx):
+    """A dispose may name its instance by key hash only (DATA without payload). The reader can turn that back into a key only if it has learned the hash from an
+    earlier sample of the instance."""
+    SD = 'dds::with_key::simpledatareader::SimpleDataReader::'
+    rep.rule('R08.15', 'key hashes are learned and used: in deserialize_with every Ok(..) built from a decoded value or a decoded key lies behind update_hash_to_key_map(the map '
+                       'handed in, that sample); update_hash_to_key_map inserts (key.hash_key(false), key) with key = Value(d).key() | Dispose(k) on every path (the hash form the '
+                       'RTPS key-hash parameter uses: MD5 only when the type requires it); the DisposeByKeyHash arm returns Ok(Dispose(map.get(key_hash).clone())) when the hash is '
+                       'known and an UnknownKey error otherwise')
+    d = fx.find(SD + 'deserialize_with')
+    rep.analysed(d)
+    og = Origins(d, summaries=False)
+    P = Pos(d)
+    edges = list(switch_edges(d, fx, og))
+    ups = [(bb, t) for bb, t in d.calls() if call_matches(t, 'SimpleDataReader::update_hash_to_key_map')]
+    news = [(bb, t) for bb, t in d.calls() if call_matches(t, 'DeserializedCacheChange::new')]
+    n = 0
+    for bb, t in news:
+        smp = og.of_operand(t['args'][2], bb, 'term')
+        from_map = term_has(smp, lambda x: x[0] == 'call' and x[1].endswith('::get') and term_has(x, lambda y: y == ('param', 4)))
+        n += 1
+        if from_map:
+            # the by-hash arm: key = clone of what the map returned for this change's key_hash, behind the Some edge
+            some = [(s_, t_) for s_, t_, cond, lab in edges if lab == 'Some' and cond[0] == 'discr' and cond[1][0] == 'call' and cond[1][1].endswith('::get') and
+                    term_has(cond[1], lambda y: y == ('param', 4)) and term_has(cond[1], lambda y: y[0] == 'field' and y[1] == 'key_hash')]
+            ok = bool(some) and P.every_path_passes(None, (bb, 'term'), via_edges=some, from_entry=True) and \
+                term_has(smp, lambda x: x[0] == 'agg' and str(x[1]).endswith('Sample::Dispose')) and term_has(smp, lambda x: x[0] == 'field' and x[1] == 'key_hash')
+            rep.check(ok, 'R08.15', 'deserialize_with/by-hash', 'Ok(Dispose(map[key_hash of this change])) only when the hash is known',
+                      'a dispose by key hash is not resolved through the hash-to-key map of this change\'s own key_hash: the wrong instance is disposed, or none', d.where(bb))
+        else:
+            pre = [(ub, 'term') for ub, ut in ups if og.of_operand(ut['args'][0], ub, 'term') == ('param', 4) and
+                   _same_sample(og.of_operand(ut['args'][1], ub, 'term'), smp)]
+            ok = bool(pre) and P.every_path_passes(None, (bb, 'term'), via_pos=pre, from_entry=True)
+            rep.check(ok, 'R08.15', 'deserialize_with/learned#%d' % n, 'update_hash_to_key_map(map, this sample) before the Ok',
+                      'deserialize_with returns a decoded %s without recording its key hash: a later dispose of that instance by key hash cannot be resolved and is dropped' %
+                      ('value' if 'Value' in str(smp) else 'key'), d.where(bb))
+    rep.floor('R08.15', n, 3, 'DeserializedCacheChange::new sites in deserialize_with')
+    # the decoder is handed the bytes and the representation of this very payload
+    ok = False
+    why = 'no find over supported_encodings() / no from_bytes_with'
+    for bb, t in d.calls():
+        if callee_res(t).endswith('from_bytes_with') and not callee_res(t).endswith('key_from_bytes_with'):
+            val, rid_ = og.of_operand(t['args'][0], bb, 'term'), og.of_operand(t['args'][1], bb, 'term')
+            finds = [x for x in _calls_in(rid_) if x[1].endswith('::find')]
+            cl = [c for c in fx.closures_of(d) if any(c.key in str(x) for x in finds)]
+            okv = term_has(val, lambda x: x[0] == 'field' and x[1] == 'value') and term_has(val, lambda x: x[0] == 'variant' and x[1] == 'Data')
+            okc = False
+            for c in cl:
+                ogc = Origins(c, summaries=False)
+                r0 = resolve_captures(fx, c, ogc.of_local(0, c.return_blocks()[0], 'term'), summaries=False)
+                okc = r0[0] == 'call' and r0[1].endswith('::eq') and any(_strip_refs(a) == ('param', 2) for a in r0[2]) and \
+                    any(term_has(a, lambda x: x[0] == 'field' and x[1] == 'representation_identifier') and term_has(a, lambda x: x[0] == 'variant' and x[1] == 'Data') for a in r0[2])
+            ok = okv and okc and bool(finds) and term_has(rid_, lambda x: x[0] == 'call' and x[1].endswith('supported_encodings'))
+            why = 'value bytes of this payload: %s; encoding found by equality with its representation_identifier: %s' % (okv, okc)
+    rep.check(ok, 'R08.15', 'deserialize_with/decoder-input', 'from_bytes_with(payload.value, the supported encoding equal to payload.representation_identifier)',
+              'deserialize_with does not decode the payload\'s own bytes under the supported encoding that equals its representation identifier (%s): valid samples are reported as '
+              'undecodable or decoded under the wrong encoding' % why, d.where())
+    u = fx.find(SD + 'update_hash_to_key_map')
+    rep.analysed(u)
+    og = Origins(u, summaries=False)
+    P = Pos(u)
+    ins = [(bb, t) for bb, t in u.calls() if callee_res(t).endswith('::insert')]
+    ok = len(ins) == 1
+    why = 'no single insert'
+    if ok:
+        bb, t = ins[0]
+        m, h, k = (og.of_operand(a, bb, 'term') for a in t['args'])
+        ok = m == ('param', 1) and h[0] == 'call' and h[1].endswith('hash_key') and h[2][1][0] == 'const' and str(h[2][1][2]) in ('0', 'false', 'False')
+        why = 'the hash is %s' % term_str(h)[:80]
+        key_ok = term_has(k, lambda x: x[0] == 'call' and x[1].endswith('Keyed::key') and term_has(x, lambda y: y[0] == 'variant' and y[1] == 'Value')) and \
+            term_has(k, lambda x: x[0] == 'variant' and x[1] == 'Dispose')
+        same = _strip_refs(h[2][0]) == _strip_refs(k) if ok else False
+        if ok and not (key_ok and same):
+            ok = False
+            why = 'the key stored is %s, the key hashed is %s' % (term_str(k)[:60], term_str(h[2][0])[:60])
+        if ok and not all(P.every_path_passes(None, (r, 'term'), via_pos=[(bb, 'term')], from_entry=True) for r in u.return_blocks()):
+            ok = False
+            why = 'a path skips the insert'
+    rep.check(ok, 'R08.15', 'update_hash_to_key_map/inserts', 'map.insert(key.hash_key(false), key) on every path, key from Value(d).key() | Dispose(k)',
+              'update_hash_to_key_map does not record (key hash as on the wire, key) for the sample (%s): disposes by key hash are not resolved' % why, u.where())
+
+
+def _strip_refs(t):
+    while isinstance(t, tuple) and t and t[0] in ('ref', 'deref') and len(t) > 1 and isinstance(t[1], tuple):
+        t = t[1]
+    if isinstance(t, tuple) and t and t[0] == 'mutated':
+        return _strip_refs(t[1])
+    return t
+
+
+def _same_sample(a, b):
+    """the Sample handed to update_hash_to_key_map is the one put into the result: same aggregate (variant and operand)"""
+    a, b = _strip_refs(a), _strip_refs(b)
+    if a == b:
+        return True
+    ka = [x for x in _aggs(a) if 'Sample::' in str(x[1])]
+    kb = [x for x in _aggs(b) if 'Sample::' in str(x[1])]
+    return bool(ka) and bool(kb) and ka[0] == kb[0]
+
+
+def _aggs(t):
+    out = []
+
+    def rec(x):
+        if isinstance(x, tuple):
+            if x and x[0] == 'agg':
+                out.append(x)
+            for y in x:
+                rec(y)
+    rec(t)
+    return out
+
+
+def _calls_in(t):
+    out = []
+
+    def rec(x):
+        if isinstance(x, tuple):
+            if x and x[0] == 'call':
+                out.append(x)
+            for y in x:
+                rec(y)
+    rec(t)
+    return out
